@@ -348,7 +348,8 @@ def deep_eq(a, b, path='', memo=None):
         if list(a.keys()) != list(b.keys()):
             if set(map(repr, a.keys())) != set(map(repr, b.keys())):
                 return f'{path}: keys {list(a.keys())!r:.120} vs {list(b.keys())!r:.120}'
-            return f'{path}: key order {list(a.keys())!r:.120} vs {list(b.keys())!r:.120}'
+            # same keys in another order: python set iteration order is unspecified, so insertion orders that derive from
+            # iterating a set legitimately differ between the model and CPython
         for k in a:
             d = deep_eq(a[k], b[k], f'{path}[{k!r}]', memo)
             if d:
@@ -499,6 +500,7 @@ def verify_contract(contract_cls, rlimit=20_000_000, seed=0, crosscheck=True):
     shared = Shared(rlimit=rlimit, max_paths=C.max_paths)
     shared.hard_timeout_s = C.hard_timeout_s * (1 if rlimit <= 50_000_000 else 6)
     shared.faulting = C.faulting
+    shared.field_hook = getattr(C, 'field_hook', None)
     shared.havoc_unmodelled = C.havoc_unmodelled
     out = dict(contract=C.name(), target=C.target, props=list(C.props), clauses={}, paths=0, feasible_paths=0,
                unsupported=[], faults=[], crosscheck=dict(compared=0, mismatches=[]), functions={}, trusted=[],
@@ -574,6 +576,7 @@ def verify_contract(contract_cls, rlimit=20_000_000, seed=0, crosscheck=True):
         out['paths'] += 1
         pre = Pre(pre_a, pre_k)
         post = Post(args, kwargs, result, exc)
+        post.ghost = ctx.ghost
         model_pc = None
         r = ctx.check()
         if r == z3.unsat:
